@@ -2,6 +2,7 @@ package props
 
 import (
 	"fmt"
+	"math"
 	"testing"
 
 	jd "github.com/josephburnett/jd/v2"
@@ -270,7 +271,12 @@ func genC07(t *rapid.T) PairCase {
 			p.ArrayBias = 60
 			p.MaxArr = 8
 		}
+		p.Floats = gen.Chance(t, "floats", 30)
 		a := gen.Doc(t, p)
+		if p.Floats && gen.Chance(t, "zeroSign", 40) {
+			// the same document with the sign of some zeros flipped: equal values, different text
+			return a, flipZeros(t, a)
+		}
 		if gen.Chance(t, "independent", 12) {
 			return a, gen.Doc(t, p)
 		}
@@ -285,10 +291,39 @@ func genC07(t *rapid.T) PairCase {
 		return PairCase{A: val.JSON(a), B: val.JSON(b), Opts: opts}
 	}
 	a, b := one()
+	if gen.Chance(t, "deep", 25) {
+		a, b = gen.DeepPair(t, a, b, profileFor(opts))
+	}
 	if gen.Chance(t, "voidSide", 4) {
 		a = val.Void
 	}
 	return PairCase{A: val.JSON(a), B: val.JSON(b), Opts: opts}
+}
+
+func flipZeros(t *rapid.T, v val.V) val.V {
+	switch x := v.(type) {
+	case float64:
+		if x == 0 && gen.Chance(t, "flip", 60) {
+			if math.Signbit(x) {
+				return 0.0
+			}
+			return math.Copysign(0, -1)
+		}
+		return x
+	case []val.V:
+		out := make([]val.V, len(x))
+		for i, e := range x {
+			out[i] = flipZeros(t, e)
+		}
+		return out
+	case map[string]val.V:
+		out := map[string]val.V{}
+		for _, k := range val.Keys(x) {
+			out[k] = flipZeros(t, x[k])
+		}
+		return out
+	}
+	return v
 }
 
 func init() { Register("C07", "random", checkC07); Register("C07", "exhaustive", checkC07) }
